@@ -82,6 +82,7 @@ class SymMode(TorchDispatchMode):
         self.writes_to_protected = []
         self.concretized = []
         self.float_sum_nodes = 0
+        self.taint_lost = []
 
     # ------------------------------------------------------------------ shadow memory
     @staticmethod
@@ -225,7 +226,14 @@ class SymMode(TorchDispatchMode):
             name = func.name()
             key = "CPU" if torch._C._dispatch_has_kernel_for_dispatch_key(name, "CPU") else "CompositeExplicitAutograd"
             with self:
-                return func._op_dk(getattr(torch._C.DispatchKey, key), *args, **kwargs)
+                out = func._op_dk(getattr(torch._C.DispatchKey, key), *args, **kwargs)
+            # taint continuity: a library kernel fed symbolic data must return symbolic data; if it does not, the kernel
+            # computed below the ATen boundary (e.g. raw pointers in a compiled extension) and nothing may be concluded
+            ins = [a for a in itertools.chain(args, kwargs.values()) if isinstance(a, torch.Tensor)]
+            outs_ = [out] if isinstance(out, torch.Tensor) else [o for o in (out if isinstance(out, (list, tuple)) else []) if isinstance(o, torch.Tensor)]
+            if any(self.is_sym(a) for a in ins) and outs_ and not any(self.is_sym(o) or type(o) is not torch.Tensor for o in outs_):
+                self.taint_lost.append(str(func))
+            return out
         tens = []
         for a in itertools.chain(args, kwargs.values()):
             if isinstance(a, torch.Tensor):
